@@ -466,13 +466,14 @@ pub fn draw_swarm(rng: &mut Rng, leap: &Leap, concurrency_bias: u64) -> Swarm {
   let policy = if threads == 1 {
     Policy::Seq
   } else {
-    match rng.below(10) {
+    match rng.below(11) {
       0 | 1 | 2 => Policy::Seq,
       3 => Policy::RoundRobin,
       4 | 5 | 6 => Policy::RandomWalk,
       7 => Policy::Pct(1),
       8 => Policy::Pct(2),
-      _ => Policy::Pct(3),
+      9 => Policy::Pct(3),
+      _ => Policy::Park,
     }
   };
   let mut fam = [false; 10];
